@@ -352,8 +352,58 @@ def run_det(case: dict) -> dict:
             "final": final, "exc": tr["exc"], "stage": tr["stage"]}
 
 
+def run_levelb(case: dict) -> list:
+    """Level-B binding: run the case with the primitive observer installed and
+    return one record per split/join/remove execution."""
+    from gtirb_rewriting import _verif
+    from .levelb import PrimitiveObserver
+    shape = case["shape"]
+    isa = shape.get("isa", "x64")
+    r = render(shape)
+    proj = Projector(r.module)
+    proj.project()
+    obs = PrimitiveObserver(proj, r.module)
+    try:
+        ctx = RewritingContext(r.module, r.functions)
+        order = case.get("order") or list(range(len(case["reqs"])))
+        for ri in order:
+            rq = case["reqs"][ri]
+            if rq["op"] == "insall":
+                continue
+            b = r.blocks[rq["sec"]][rq["blk"]]
+            if rq["op"] in ("ins", "rep"):
+                ps = rq["patch"]
+                pobj = bytes(ps["bytes"]) if "bytes" in ps else make_patch(ps, isa)
+                if rq["op"] == "ins":
+                    ctx.insert_at(b, rq["off"], pobj)
+                else:
+                    ctx.replace_at(b, rq["off"], rq["len"], pobj)
+            else:
+                ctx.delete_at(b, rq["off"], rq["len"], retarget_to_proxy=bool(rq.get("proxy")))
+        _verif.install(obs)
+        try:
+            ctx.apply()
+        finally:
+            _verif.install(None)
+    except BaseException:
+        pass
+    out = []
+    for k, ev in enumerate(obs.events):
+        ev["id"] = f"{case['id']}#{k}"
+        out.append(ev)
+    return out
+
+
 def main(argv):
     """runner.py CASES.ndjson TRACES.ndjson"""
+    if os.environ.get("VERIF_G1_MODE") == "levelb":
+        src, dst = argv[1], argv[2]
+        with open(src) as f, open(dst, "w") as out:
+            for line in f:
+                if line.strip():
+                    for ev in run_levelb(json.loads(line)):
+                        out.write(json.dumps(ev, separators=(",", ":")) + "\n")
+        return
     if os.environ.get("VERIF_G1_MODE") == "det":
         src, dst = argv[1], argv[2]
         with open(src) as f, open(dst, "w") as out:
